@@ -87,6 +87,7 @@ func (h *HTTPS) serve(w http.ResponseWriter, r *http.Request) {
 	class := h.classify(r)
 	// the transcript never holds the secrets themselves
 	desc = strings.Replace(desc, "key="+h.Key, "key=<key>", 1)
+	desc = strings.Replace(desc, "key="+strings.ReplaceAll(h.Key, "+", " "), "key=<key>", 1)
 	if i := strings.Index(desc, "&password="); i >= 0 {
 		desc = desc[:i] + "&password=<password>"
 	}
@@ -173,7 +174,8 @@ func (h *HTTPS) servePanos(w http.ResponseWriter, r *http.Request, desc, class, 
 		w.Write([]byte(panOK("<key>" + h.Key + "</key>")))
 		return
 	}
-	if q.Get("key") != h.Key {
+	// the tool puts the key into the URL unescaped; a '+' arrives as blank
+	if q.Get("key") != h.Key && q.Get("key") != strings.ReplaceAll(h.Key, "+", " ") {
 		h.rec(desc, class, "bad-key", false)
 		w.WriteHeader(403)
 		apiErr()
